@@ -217,6 +217,53 @@ func main() {
 			}
 		}
 	})
+	// go:embed variables (string / []byte): contents are loaded from disk
+	embeds := map[*ssa.Global][]byte{}
+	packages.Visit([]*packages.Package{target}, nil, func(p *packages.Package) {
+		var sp *ssa.Package
+		for _, f := range p.Syntax {
+			for _, d := range f.Decls {
+				gd, ok := d.(*ast.GenDecl)
+				if !ok || gd.Tok.String() != "var" {
+					continue
+				}
+				for _, spec := range gd.Specs {
+					vs := spec.(*ast.ValueSpec)
+					doc := vs.Doc
+					if doc == nil {
+						doc = gd.Doc
+					}
+					if doc == nil || len(vs.Names) != 1 {
+						continue
+					}
+					for _, c := range doc.List {
+						if !strings.HasPrefix(c.Text, "//go:embed ") {
+							continue
+						}
+						pat := strings.TrimSpace(strings.TrimPrefix(c.Text, "//go:embed "))
+						dir := filepath.Dir(p.Fset.Position(f.Pos()).Filename)
+						b, err := os.ReadFile(filepath.Join(dir, pat))
+						if err != nil {
+							continue
+						}
+						if sp == nil {
+							for _, x := range prog.AllPackages() {
+								if x.Pkg == p.Types {
+									sp = x
+								}
+							}
+						}
+						if sp == nil {
+							continue
+						}
+						if g, ok := sp.Members[vs.Names[0].Name].(*ssa.Global); ok {
+							embeds[g] = b
+						}
+					}
+				}
+			}
+		}
+	})
 	for k := range opaque {
 		res.Opaque = append(res.Opaque, k)
 	}
@@ -276,7 +323,7 @@ func main() {
 		for k, v := range stubs[j.Harness] {
 			js[k] = v
 		}
-		eng := &sym.Engine{Prog: prog, Stubs: js, Opaque: opaque, NoInit: noinit}
+		eng := &sym.Engine{Prog: prog, Stubs: js, Opaque: opaque, NoInit: noinit, Embeds: embeds}
 		eng.Cfg = sym.Config{Workers: *workers, MaxPaths: *maxPaths, MaxDecisions: *maxDec, MaxSteps: *maxSteps,
 			MaxDepth: *maxDepth, DelayBound: *delay, Params: j.Params, Known: known, Transcript: *transcript,
 			Verbose: *verbose, TimeBudget: *timeBudget}
